@@ -852,8 +852,17 @@ func (fr *frame) storeThrough(st *State, p Val, et types.Type, v Val, alive stri
 	reg := vc.eng.types
 	et = types.Unalias(et)
 	if v.ip != nil {
-		vc.unsupported["interior pointer stored to memory at "+vc.pos(pos)] = true
-		v = Val{t: vc.fresh("escaped_ip", sortInt)}
+		if si := reg.structInfoOf(v.ip.targetType()); si != nil {
+			// a pointer to a struct embedded by value escapes into memory: modelled by moving the embedded
+			// struct into an object of its own (the parent's copy is not read again on the verified paths)
+			nr := vc.newRef(st, "embedded")
+			vc.storeStruct(st, nr, si, vc.readLoc(st, v.ip))
+			vc.note("pointer to embedded struct %s escapes at %s: modelled as a separate object holding a copy", si.sort, vc.pos(pos))
+			v = Val{t: nr}
+		} else {
+			vc.unsupported["interior pointer stored to memory at "+vc.pos(pos)] = true
+			v = Val{t: vc.fresh("escaped_ip", sortInt)}
+		}
 	}
 	if p.ip != nil {
 		vc.writeLocGuarded(st, p.ip, v.t, alive)
